@@ -1,0 +1,73 @@
+use super::segment_index::SegmentIndex;
+use once_cell::sync::Lazy;
+use std::collections::{HashMap, HashSet};
+use std::path::{Path, PathBuf};
+use std::sync::{Arc, RwLock};
+
+static SHARDS: Lazy<RwLock<HashMap<PathBuf, Arc<PublishedUids>>>> =
+    Lazy::new(|| RwLock::new(HashMap::new()));
+
+/// In-memory copy of the uid lists `segments.idx` records for the published segments of
+/// one shard.
+///
+/// A segment directory is immutable while it is published, so when compaction moves only
+/// some of a segment's event types to an output segment, the files of the moved uids stay
+/// in the input directory; only the index entry of the input shrinks. Readers therefore
+/// must not decide from the files alone whether a segment serves a uid: they ask
+/// [`PublishedUids::serves`].
+///
+/// The copy is loaded from `segments.idx` when the shard starts and is updated by the
+/// compaction hand-over together with the shard's live segment list (while holding that
+/// list's write lock), so a reader that holds the list's read lock sees a matching pair.
+/// A segment without an entry (one flushed since start-up) is unrestricted: all files in
+/// its directory belong to uids the index lists for it.
+#[derive(Debug, Default)]
+pub struct PublishedUids {
+    by_segment: RwLock<HashMap<String, HashSet<String>>>,
+}
+
+impl PublishedUids {
+    /// The instance shared by everything that works on the shard stored in `shard_dir`.
+    pub fn for_shard(shard_dir: &Path) -> Arc<Self> {
+        if let Some(found) = SHARDS.read().unwrap().get(shard_dir) {
+            return Arc::clone(found);
+        }
+        let mut shards = SHARDS.write().unwrap();
+        Arc::clone(shards.entry(shard_dir.to_path_buf()).or_default())
+    }
+
+    /// Replaces the recorded uid lists with the ones in the shard's `segments.idx`
+    /// (nothing is recorded when the index is missing or unreadable).
+    pub fn load_from_index(&self, shard_dir: &Path) {
+        let entries = SegmentIndex::published_entries(shard_dir).unwrap_or_default();
+        let mut by_segment = self.by_segment.write().unwrap();
+        by_segment.clear();
+        for entry in entries {
+            by_segment.insert(entry.label(), entry.uids.into_iter().collect());
+        }
+    }
+
+    /// Records the uids the index now lists for `segment`; `None` forgets the segment
+    /// (it was retired, and its label may be handed out again).
+    pub fn record(&self, segment: &str, uids: Option<&[String]>) {
+        let mut by_segment = self.by_segment.write().unwrap();
+        match uids {
+            Some(uids) => {
+                by_segment.insert(segment.to_string(), uids.iter().cloned().collect());
+            }
+            None => {
+                by_segment.remove(segment);
+            }
+        }
+    }
+
+    /// False when the index lists `segment` without `uid`: whatever files of that uid the
+    /// segment directory still holds have been compacted into another segment.
+    pub fn serves(&self, segment: &str, uid: &str) -> bool {
+        self.by_segment
+            .read()
+            .unwrap()
+            .get(segment)
+            .map_or(true, |uids| uids.contains(uid))
+    }
+}
